@@ -56,7 +56,7 @@ def run(ctx):
         nsteps = rng.randint(20, 40)
         for step in range(nsteps):
             op = rng.choice(["axpy", "axpy", "add", "sub", "iadd", "scale", "dot", "vdot", "norm", "max",
-                             "get", "set", "setwfn", "emptycopy", "deepcopy", "mismatch"])
+                             "get", "set", "setwfn", "emptycopy", "deepcopy", "deepcopy-container", "mismatch"])
             i, j = rng.randrange(4), rng.randrange(4)
             s = U.gint(rng, zero_p=0.1)
             entry = {"op": op, "i": i, "j": j, "s": [complex(s).real, complex(s).imag]}
@@ -201,6 +201,34 @@ def run(ctx):
                     pool[j] = copy.deepcopy(pool[i])
                     model[j] = dict(model[i])
                     keyset[j] = keyset[i]
+                elif op == "deepcopy-container":
+                    # one deepcopy call over a container of several wavefunctions (a list of guess vectors, a
+                    # (bra, ket) pair, a dict of states): every member is copied for itself, also when two members
+                    # carry the same sector labels, and the copies share no storage with each other or the sources
+                    shape = rng.choice(["list", "tuple", "dict"])
+                    members = list(range(4))
+                    rng.shuffle(members)
+                    members = members[:rng.choice([2, 3, 4])]
+                    if shape == "dict":
+                        cp = copy.deepcopy({f"s{k}": pool[k] for k in members})
+                        cps = [cp[f"s{k}"] for k in members]
+                    else:
+                        cp = copy.deepcopy([pool[k] for k in members] if shape == "list" else tuple(pool[k] for k in members))
+                        cps = list(cp)
+                    for k, c in zip(members, cps):
+                        if not same(c, model[k]):
+                            ok, what = False, f"deepcopy of a {shape} of wavefunctions: copy of member {k} differs from its source"
+                            break
+                    if ok:
+                        cps[0].scale(2.0)
+                        for k, c in list(zip(members, cps))[1:]:
+                            if not same(c, model[k]):
+                                ok, what = False, f"deepcopy of a {shape}: scaling one copy changed another copy"
+                                break
+                    if ok:
+                        for k, c in zip(members, cps):
+                            pool[k] = c
+                        model[members[0]] = parse_vec(d.ask(f"vaxpy {fmt_c(2)} {fmt_vec(to_entries(model[members[0]]))} 0"))
             except Exception as exc:
                 ok, what = False, f"{op} raised {type(exc).__name__}: {exc}"
             # frame check: every pool member equals its model
